@@ -169,7 +169,7 @@ PROPS = {
         "units": [
             R("h23", "c16", "TestC16_Histories", (3000, 8, 1500), (1000000, 16, 10000)),
             R("h23", "c16", "TestC16_Topic", (60, 4, 900), (6000, 8, 10000)),
-            R("h23", "c16", "TestC16_CloseRace", (80, 4, 900), (8000, 8, 10000)),
+            R("h23", "c16", "TestC16_CloseRace", (80, 4, 300), (8000, 8, 10000)),
         ],
     },
     "C08": {
@@ -184,7 +184,7 @@ PROPS = {
         "units": [
             R("h26", "c14", "TestC14_Scripts", (3000, 8, 400), (200000, 16, 10000)),
             R("h26", "c14", "TestC14_RegisterCancelStress", (400, 8, 300), (40000, 16, 10000)),
-            R("h26", "c14", "TestC14_Backlog", (48, 8, 400), (1600, 16, 10000)),
+            R("h26", "c14", "TestC14_Backlog", (48, 8, 240), (1600, 16, 10000)),
         ],
     },
     "C15": {
